@@ -17,7 +17,9 @@ R17.3 every public entry (ST::format x2, format_latin_1, printf x2, writef, _stf
 R17.5 call order: a writer that stages bytes in its own storage flushes them before it hands bytes of a later call to the sink directly
 R17.4 operator<<(basic_ostream<T>&, const ST::string&) inserts basic_string<T>(b.data(), b.size()) of the buffer filled by
       to_buffer(b); operator>>(basic_istream<T>&, ST::string&) sets the string from exactly the token extracted into a
-      basic_string<T> - (c_str(), size()) - with the default validation
+      basic_string<T> - (c_str(), size()) - with the default validation; that basic_string is empty when the extraction starts on
+      every path (constructed or cleared in the call: a token object that outlives the call keeps the previous token when the
+      stream yields none)
 
 Decided: these hand-over facts, for every writer instantiated in gen/driver.cpp.  Not decided: that libc / iostream deliver what they
 are handed (trusted), what the conversions produce (C01-C03), what the driver emits (C10 / C11), buffering added inside a writer (an
@@ -597,6 +599,11 @@ def stream_ops(run, m, F, E):
                 st.ev('mkstr', inst, list(args))
                 return [(st, None)]
             if re.match(r'^std::__cxx11::basic_string<.*>::(~basic_string|basic_string)\(\)', d) or d.startswith('std::allocator<'):
+                if '::basic_string()' in d:
+                    st.ev('tokfresh', inst, list(args))
+                return [(st, None)]
+            if re.match(r'^std::__cxx11::basic_string<.*>::clear\(\)', d):
+                st.ev('tokfresh', inst, list(args))
                 return [(st, None)]
             if re.match(r'^std::basic_ostream<.*>& std::operator<<<', d):
                 st.ev('insert', inst, list(args))
@@ -675,6 +682,18 @@ def stream_ops(run, m, F, E):
                     probs.append('set() is given %r unit(s), the token holds size() units' % (a[2],))
                 cs, sz = ev('c_str'), ev('size')
                 tok = ex[0][2][1]
+                # the token is what *this* extraction read: a basic_string that is empty when the extraction starts (constructed or
+                # cleared in this call).  libstdc++ leaves the string untouched when the sentry fails (empty, exhausted or failed
+                # stream), so one that outlives the call hands the previous call's token to set().
+                before = s2.events[:s2.events.index(ex[0])]
+                if isinstance(tok, PtrV) and not [e for e in before if e[0] == 'tokfresh' and isinstance(e[2][0], PtrV) and e[2][0].obj == tok.obj]:
+                    ko = s2.objs.get(tok.obj)
+                    if ko is not None and ko.kind == 'global':
+                        probs.append('extracts into %s, an object that outlives the call, on a path that neither constructs nor clears it: when the '
+                                     'stream yields no token (empty, exhausted or failed stream) the string is set to the token of an earlier '
+                                     'extraction instead of the empty token a basic_string extraction leaves' % (str(tok.obj)[:60],))
+                    else:
+                        und.append('the basic_string extracted into is not seen to be empty when the extraction starts')
                 for e in cs + sz:
                     if not (isinstance(e[2][0], PtrV) and isinstance(tok, PtrV) and e[2][0].obj == tok.obj):
                         und.append('c_str() / size() are not taken from the basic_string that was extracted into')
